@@ -77,6 +77,9 @@ ApplyMemStep(m, s) ==
             [m EXCEPT !.mutcur = Upd(@, s.r, @[s.r] + 1)]
       [] s.k = "mutAhead" ->
             [m EXCEPT !.mutsaved = Upd(@, s.r, @[s.r] + Stride)]
+      [] s.k = "unmapRepo" ->  \* deleteRepo, in memory: the repo, its root entry and its versions leave the maps
+            [m EXCEPT !.r2u = Del(@, s.r), !.v2u = @ \ m.blob[s.r].nodes, !.blob = Del(@, s.r),
+                      !.mutcur = Del(@, s.r), !.mutsaved = Del(@, s.r)]
       [] OTHER -> m
 
 ApplyWrite(d, m, s) ==
@@ -85,9 +88,10 @@ ApplyWrite(d, m, s) ==
       [] s.k = "wIDS" -> [d EXCEPT !.rid = m.rid, !.vid = m.vid, !.iid = m.iid]
       [] s.k = "wREPO" -> [d EXCEPT !.blob = Upd(@, s.r, m.blob[s.r])]
       [] s.k = "wMUT" -> [d EXCEPT !.mut = Upd(@, s.r, m.mutsaved[s.r])]
+      [] s.k = "wDelREPO" -> [d EXCEPT !.blob = Del(@, s.r)]   \* r.delete(): the repo blob is removed
       [] OTHER -> d
 
-IsWrite(s) == s.k \in {"wR2U", "wV2U", "wIDS", "wREPO", "wMUT"}
+IsWrite(s) == s.k \in {"wR2U", "wV2U", "wIDS", "wREPO", "wMUT", "wDelREPO"}
 
 PutCaches == <<[k |-> "wR2U"], [k |-> "wV2U"]>>
 NewUUIDSteps(v) == <<[k |-> "allocV", v |-> v]>> \o PutCaches \o <<[k |-> "wIDS"]>>
@@ -106,13 +110,21 @@ CommitProg(r, v) == <<[k |-> "lock", r |-> r, v |-> v], [k |-> "wREPO", r |-> r]
 NewDataProg(r, i) ==
     <<[k |-> "allocI"], [k |-> "wIDS"], [k |-> "mkInst", r |-> r, i |-> i], [k |-> "wREPO", r |-> r], [k |-> "ack"]>>
 
+\* deleteRepo (datastore.DeleteRepo, the `repos delete` command): the repo blob is deleted FIRST,
+\* then the repo leaves the in-memory maps, then both maps are persisted.  The order matters for a
+\* crash: the loader drops a map entry that has no blob, but refuses to start on a blob whose repo
+\* id is not in the map (StartupFails).  (The keys of the repo's data instances are removed in the
+\* background and are not part of the metadata; the mutation-id key stays.)
+DeleteRepoProg(r) ==
+    <<[k |-> "wDelREPO", r |-> r], [k |-> "unmapRepo", r |-> r]>> \o PutCaches \o <<[k |-> "ack"]>>
+
 WriteClass(s) == CASE s.k = "wR2U" -> "R2U" [] s.k = "wV2U" -> "V2U" [] s.k = "wIDS" -> "IDS"
-                   [] s.k = "wREPO" -> "REPO" [] s.k = "wMUT" -> "MUT" [] OTHER -> "?"
+                   [] s.k = "wREPO" -> "REPO" [] s.k = "wMUT" -> "MUT" [] s.k = "wDelREPO" -> "REPO" [] OTHER -> "?"
 WritesOf(p) == LET w == SelectSeq(p, IsWrite) IN [i \in 1..Len(w) |-> WriteClass(w[i])]
 \* the store-write sequence each request must produce (conformance table for the write trace)
 WriteTable == [newrepo |-> WritesOf(NewRepoProg(1, 1)), newversion |-> WritesOf(NewVersionProg(1, 2, <<1>>)),
                merge |-> WritesOf(NewVersionProg(1, 3, <<1, 2>>)), commit |-> WritesOf(CommitProg(1, 1)),
-               newdata |-> WritesOf(NewDataProg(1, 1))]
+               newdata |-> WritesOf(NewDataProg(1, 1)), deleterepo |-> WritesOf(DeleteRepoProg(1))]
 
 AllNodes(m) == UNION {m.blob[r].nodes : r \in Dom(m.blob)}
 
@@ -161,8 +173,21 @@ StartNewMutID ==
                     \o <<[k |-> "ack"]>>
     /\ UNCHANGED <<mem, disk, acked, issued, crashes, up>>
 
+\* deleteRepo.  The fact "deleting r" is recorded when the request starts: from then on the
+\* repo may be entirely present or entirely absent (Visible below); once acknowledged it must be
+\* absent.  Not in Next: explored by the configuration of DvidPersistDel_mc (two repos, one of
+\* them a bystander).
+StartDeleteRepo ==
+    /\ Idle
+    /\ \E r \in Dom(mem.blob) \cap Dom(mem.r2u) :
+         /\ cur' = [op |-> "deleterepo", r |-> r]
+         /\ prog' = DeleteRepoProg(r)
+         /\ acked' = acked \cup {[f |-> "deleting", r |-> r]}
+    /\ UNCHANGED <<mem, disk, issued, crashes, up>>
+
 AckFact ==
-    CASE cur.op = "newrepo" -> {[f |-> "repo", r |-> cur.r, v |-> cur.v]}
+    CASE cur.op = "deleterepo" -> {[f |-> "norepo", r |-> cur.r]}
+      [] cur.op = "newrepo" -> {[f |-> "repo", r |-> cur.r, v |-> cur.v]}
       [] cur.op = "newversion" -> {[f |-> "node", r |-> cur.r, v |-> cur.v, ps |-> cur.ps]}
       [] cur.op = "commit" -> {[f |-> "locked", r |-> cur.r, v |-> cur.v]}
       [] cur.op = "newdata" -> {[f |-> "inst", r |-> cur.r, i |-> cur.i]}
@@ -262,8 +287,14 @@ Inv_C04_StartupSucceeds == ~up => ~StartupFails
 
 \* C04: whenever the process is up and idle, every acknowledged fact is visible and the
 \* metadata is well formed
+\* a repo whose deletion was requested: gone from the observable projection
+Absent(r) == r \notin Dom(mem.blob) /\ r \notin Dom(mem.r2u)
+Deleting(r) == [f |-> "deleting", r |-> r] \in acked
 Visible(f) ==
-    CASE f.f = "repo" -> f.r \in Dom(mem.blob) /\ f.r \in Dom(mem.r2u) /\ f.v \in mem.blob[f.r].nodes
+    CASE f.f = "deleting" -> TRUE
+      [] f.f = "norepo" -> Absent(f.r)                       \* an acknowledged deletion stays
+      [] Deleting(f.r) /\ Absent(f.r) -> TRUE                \* entirely absent ...
+      [] f.f = "repo" -> f.r \in Dom(mem.blob) /\ f.r \in Dom(mem.r2u) /\ f.v \in mem.blob[f.r].nodes   \* ... or entirely present
       [] f.f = "node" -> f.r \in Dom(mem.blob) /\ f.v \in mem.blob[f.r].nodes /\ mem.blob[f.r].par[f.v] = f.ps
       [] f.f = "locked" -> f.r \in Dom(mem.blob) /\ f.v \in mem.blob[f.r].locked
       [] f.f = "inst" -> f.r \in Dom(mem.blob) /\ f.i \in mem.blob[f.r].insts
@@ -287,7 +318,8 @@ Inv_C12_CountersAhead ==
       /\ \A r \in Dom(mem.blob) : r < mem.rid /\ \A i \in mem.blob[r].insts : i < mem.iid
       /\ disk.vid >= mem.vid /\ disk.rid >= mem.rid /\ disk.iid >= mem.iid
       /\ \A x \in issued : x[1] = "version" => x[2] < mem.vid
-      /\ \A x \in issued : x[1] = "mut" => x[3] < mem.mutcur[x[2]] /\ mem.mutcur[x[2]] <= mem.mutsaved[x[2]]
+      /\ \A x \in issued : (x[1] = "mut" /\ x[2] \in Dom(mem.mutcur)) =>   \* (a deleted repo has no counter any more)
+                                x[3] < mem.mutcur[x[2]] /\ mem.mutcur[x[2]] <= mem.mutsaved[x[2]]
       /\ \A r \in Dom(mem.mutcur) : r \in Dom(disk.mut) => disk.mut[r] >= mem.mutcur[r]
 
 StateConstraint == mem.vid <= MaxVersions + 1 /\ crashes <= MaxCrashes
